@@ -8,6 +8,36 @@ COMMON_NOTE = ("Trusted: Coq 8.16.1 kernel (full .vo build, Print Assumptions = 
                "extraction with ExtrOcamlBasic only, ocaml/driver.ml, the Rust harness; the hand-written model is tied "
                "to /repo's source by the differential (correspondence) run of every check, the tables by the translator.")
 CLAIMS = {
+ "C07": ("Coq theorems about the model of the Feig client, for every terminal behaviour (the world w is universally quantified): the token-map invariant "
+         "(no token twice, never more than the maximum) holds after every call; calls refused by the map's rules return the documented error and the "
+         "world UNCHANGED (no traffic); begin changes the map only on success by exactly the new token; the consumer loops are folds of pure handlers. "
+         "Tie: the real client (hook feature zvt_verif) under tokio's paused clock against a simulated terminal: all histories over begin/commit/cancel x "
+         "tokens x terminal outcomes to depth 3 x max 0..3, random walks to 40; results, per-connection write logs and virtual times compared with the "
+         "extracted model; oracle = the abstract token map with byte-exact expected requests.", "DESIGN.md section 6, C07"),
+ "C08": ("Coq: released amount = pre - min(pre, final) <= pre, 0 when final is larger, for ALL naturals (no bound); summary = last status "
+         "information (fold lemma); abort reported with its code. Tie: amounts at 0, 1, pre-1, pre, pre+1, 10^12-1, 2^63, 2^64-1 x currencies x "
+         "tokens x receipts; the requests on the wire are compared byte-exactly with the reference encoding of the specified request.", "DESIGN.md section 6, C08"),
+ "C09": ("Coq (partial): an Err item is followed on the next poll by dropping the connection; a dropped connection is not the current one. The "
+         "history-level claim is decided by the correspondence + oracle: every public operation x every packet position (handshake included) x {close, "
+         "garbage, NACK, silence, truncated, wrong / case-different / prefix serial}, each followed by further operations: exact per-connection write "
+         "logs with virtual timestamps against the model, plus model-free predicates (no write after drop, every connection starts with registration and "
+         "identity check, nothing on a wrong-serial connection).", "DESIGN.md section 6, C09"),
+ "C10": ("Coq: the read-card timeout is t+2 s > 0 without overflow for every t < 256; one poll of any sequence under a deadline ends by the deadline "
+         "(timeout exactly at it) wherever the terminal falls silent; the retry loop's fuel is irrelevant above 3*attempts+2 and the 20-attempt budget fits. "
+         "Tie: paused tokio clock, a stall at every packet position of every exchange of every operation incl. the first and the reconnect handshake, "
+         "read_card_timeout every 5th value + extremes (0..255 in thorough); completion and virtual elapsed time compared to the millisecond with the model; "
+         "oracle: never Hang/Panic, elapsed <= budget bound. Partial: tokio timers, OS connect.", "DESIGN.md section 6, C10"),
+ "C18": ("Coq theorems on the read-card handler for every accumulator and reply: canonical UID function = its specification; listed application with id "
+         "=> Bank; any listed application => Bank or error, never Membership; no application + UID => Membership(canon uid); 0x6C => NoCard. Tie: UID absent / "
+         "0..20 bytes, application lists absent/empty/with and without ids, 0-3 intermediate statuses, all 256 abort codes.", "DESIGN.md section 6, C18"),
+ "C19": ("Coq: with other transactions open a completed cancel returns the world of its own exchange (no pending query, no end-of-day); when the map "
+         "becomes empty the call IS the clean-up chain (end_of_day: pending query, reversal, end-of-day); 0xA0 tolerated, other refusals reported; "
+         "end_of_day leaves the map empty. Tie: histories to depth 3 (4) x dangling receipt present / absent / bare abort x end-of-day outcomes "
+         "(completion, 0xA0, sampled / all other codes) with byte-exact expected request chains.", "DESIGN.md section 6, C19"),
+ "C20": ("Coq theorem for ALL codes c and every exchange with an abort arm (reservation, read card, end-of-day, partial reversal, pre-auth reversal, "
+         "initialisation, set-terminal-id, system info): the handler answers Err identifying c, with exactly the three documented translations; an abort "
+         "ends the loop. Tie: all 256 codes x 11 operation/sub-exchange placements x position behind 0-2 intermediate statuses on the real client.",
+         "DESIGN.md section 6, C20"),
  "C12": ("The Coq theorems of C01/C02/C13/C14 are stated for EVERY layout over the attribute grammar (totality and termination of the generated "
          "decoder, frame inverse, the struct decode function over positional fields and tagged groups in any order, decimal Fixed<k> fields), with a "
          "kernel-evaluated example on a layout the shipped packets never use. Tie: random struct definitions (<= 8 fields, depth <= 3; 48 well-formed + "
@@ -83,12 +113,14 @@ m = {
  "hooks": {"guard": "zvt_verif",
            "enable": "cargo feature `zvt_verif` on zvt_feig_terminal (the client harness depends on it with features=[\"zvt_verif\"])",
            "baseline_off_cmd": "cd /repo && cargo test --workspace --no-fail-fast --offline",
-           "source_commits": [], "add_only": False},
+           "source_commits": ["b1fd2de"], "add_only": False},
  "engines": [
   {"name": "coq-model", "path": "coq/", "serves_properties": claimed,
    "kind_free_text": "Coq 8.16.1 development: executable model + theorems; Properties/Cxx.v hold only statements closed by `exact` + Print Assumptions"},
   {"name": "ocaml-driver", "path": "ocaml/driver.ml", "serves_properties": claimed,
    "kind_free_text": "extracted model (ExtrOcamlBasic only) run on the same case files as the implementation"},
+  {"name": "harness-client", "path": "harness_client/", "serves_properties": ["C07", "C08", "C09", "C10", "C18", "C19", "C20"],
+   "kind_free_text": "the real Feig client built with the hook feature zvt_verif, driven under tokio's paused clock against a scripted terminal"},
   {"name": "harness", "path": "harness/", "serves_properties": claimed,
    "kind_free_text": "Rust binaries depending by path on /repo's crates, rebuilt from the working tree on every check"}],
  "checks": [],
